@@ -233,6 +233,12 @@ def k_cases(tier):
 
 
 def run(tier, seed, rep):
+    # conforming answers while other callers (asking for blocks of other lengths) queue on the same object
+    from . import c06
+    novl, ovl = c06.acceptance_stage(tier, seed, ('valid', 'valid@.6T'))
+    for v in ovl:
+        v['key'] = 'overlapping-callers:' + v['key']
+    rep.add_many(ovl)
     jobs = []
     counts = list(range(1, 126))
     chunk = 8
@@ -277,7 +283,7 @@ def run(tier, seed, rep):
                     nk += 1
                     for key, cause in v:
                         rep.add(key, key.split('/')[0], dict(part='L', framing=framing, ca=ca, cb=cb, ka=ka), dict(cause=cause))
-    cov = dict(evaluations=total + nk, distinct_nontrivial=nontriv,
+    cov = dict(overlapping_caller_executions=novl, evaluations=total + nk + novl, distinct_nontrivial=nontriv,
                rule='conforming frames built by the independent codec: RTU/MBAP read answers for every count x every '
                     'uniform fill byte (x all unit addresses for counts 1 and 125, x trailing 0/1/2/7 bytes on RTU), '
                     'walking-one payloads, write echoes over all 65536 registers x boundary values and all 65536 '
@@ -297,6 +303,11 @@ def run(tier, seed, rep):
 
 
 def replay(r):
+    if r['part'] == 'overlap':
+        from . import c06
+        out = c06.replay(r)
+        out['violations'] = [v for v in out['violations'] if v[0].startswith('answered-at-once:valid')]
+        return out
     if r['part'] == 'L':
         return dict(violations=run_after_lost_remainder(r['framing'], r['ca'], r['cb'], r['ka']) or [])
     if r['part'] == 'R':
